@@ -384,7 +384,42 @@ def rule_index_growth(ctx, rule='R06.8'):
     ctx.covered(rule, 'loops bounded by a capacity they enlarge themselves: the growth test holds in the last admitted iteration', n, floor=1, samples=samples)
 
 
+def rule_counter_update(ctx, rule='R06.9'):
+    """R06.9: a delta snapshot marks an array that has vanished since the first snapshot with a field of size 0. The reader
+    overlays fields on the first snapshot, so for every array field it reads it must set the element counter - to 0 for
+    that marker: the store through the pointer computed from the descriptor's offset_N may depend on the field's data
+    type only, not on whether (or how many) bytes were read."""
+    from . import pathcond
+    tu = cfront.load_tu('input.c')
+    fn = tu.func('reb_input_fields')
+    pcs = pathcond.conditions(fn)
+    counters = set()
+    for d in walk(cfront.body(fn)):
+        if d.get('kind') == 'VarDecl' and 'init' in d and '*' in qtype(d):
+            init = [c for c in d.get('inner', []) if c.get('kind') not in ('FullComment',)]
+            if init and 'offset_N' in render(init[-1]):
+                counters.add(d['name'])
+    anchor(counters, 'reb_input_fields: pointer to the element counter (descriptor offset_N)')
+    n = 0
+    for e in walk(cfront.body(fn)):
+        if not is_assign(e):
+            continue
+        l0 = strip(e['inner'][0], casts=True)
+        if l0.get('kind') == 'UnaryOperator' and l0.get('opcode') == '*' and render(l0['inner'][0]).strip('()') in counters:
+            n += 1
+            cs = [c.replace(' ', '') for c in pcs.get(id(e), [])]
+            other = [c for c in cs if not re.search(r'dtype|\.type==|\.type!=|descriptor_list\[|fd_\w+\.type|REB_FIELD_END|numread|fread', c) and 'found' not in c]
+            # conditions that select the descriptor row / data type are the dispatch; anything else makes the update conditional
+            other = [c for c in other if re.search(r'success|size|read|ok|ret', c)]
+            if other:
+                ctx.report(rule, 'input:counter:conditional', 'src/input.c:%s reb_input_fields' % line_of(e),
+                           'the element counter of an array field is only updated under %s: a field of size 0 (an array that vanished since the first snapshot) leaves the counter of the first snapshot in place, so the loaded snapshot keeps arrays the live simulation no longer had' % other)
+    anchor(n >= 1, 'stores to the element counter in reb_input_fields')
+    ctx.covered(rule, 'element counters of array fields are stored for every field read, whatever its size', n, floor=1)
+
+
 def run(ctx):
+    rule_counter_update(ctx)
     rule_index_growth(ctx)
     rule_index_arrays(ctx)
     bytesacct.rule_writer(ctx, 'R06.1', [('binarydiff.c', 'reb_binary_diff'), ('simulationarchive.c', 'reb_simulation_save_to_file')], floor=4)
